@@ -713,6 +713,49 @@ async def c09_legacy_stop_twice(w):
             "expected": {"after_del": ["bye"], "after_unload": ["bye"]}}
 
 
+async def c09_webhook_id_taken(w):
+    """Webhook.notify_add for an id Home Assistant refuses (already registered by another integration), then - the other
+    handler gone - a second subscriber of the same id: it must be registered with Home Assistant, and removable."""
+    import custom_components.pyscript.webhook as pw
+    from custom_components.pyscript.webhook import Webhook
+    hass = await boot()
+    Webhook.init(hass)
+    Webhook.notify.clear()
+    Webhook.notify_remove.clear()
+    taken, regs = {"c09hook"}, []
+
+    def reg(hass_, domain, name, wid, handler, local_only=None, allowed_methods=None):
+        if wid in taken:
+            raise ValueError("Handler is already defined!")
+        taken.add(wid)
+        regs.append(wid)
+    saved = pw.webhook
+    pw.webhook = SimpleNamespace(async_register=reg, async_unregister=lambda hass_, wid: taken.discard(wid))
+    q1, q2 = asyncio.Queue(), asyncio.Queue()
+    e1 = e2 = None
+    try:
+        try:
+            Webhook.notify_add("c09hook", True, ["POST"], q1)
+        except Exception as e:  # noqa
+            e1 = repr(e)
+        listed_after_refusal = "c09hook" in Webhook.notify
+        taken.discard("c09hook")
+        try:
+            Webhook.notify_add("c09hook", True, ["POST"], q2)
+            Webhook.notify_del("c09hook", q2)
+        except Exception as e:  # noqa
+            e2 = repr(e)
+    finally:
+        pw.webhook = saved
+    obs = {"first_add": e1, "listed_after_refusal": listed_after_refusal, "registered_with_home_assistant": list(regs), "second_subscriber": e2,
+           "left": sorted(Webhook.notify)}
+    Webhook.notify.clear()
+    Webhook.notify_remove.clear()
+    await shutdown()
+    return {"reproduced": listed_after_refusal or regs != ["c09hook"] or e2 is not None or bool(obs["left"]), "observed": obs,
+            "expected": "nothing listed after the refusal; the second subscriber is registered once and removed without error"}
+
+
 async def c09_state_notify_del(w):
     """State.notify_add(names, q) then State.notify_del(names, q) with the iteration order of the model."""
     from custom_components.pyscript.state import State
